@@ -104,12 +104,18 @@ async def sql_storage(scratch, validators=None, **opts):
     return st
 
 
+_KV_SEQ = [0]
+
+
 async def kv_storage(scratch=None, validators=None, path=None, **opts):
     import lmdb
     from nostr_relay.storage import kv
 
     kv.analyze = lambda *a, **k: None       # statistics thread: not part of any property (DESIGN 5/C02)
-    path = path or "shim-%d" % id(object())
+    if path is None:
+        _KV_SEQ[0] += 1
+        path = "shim-%d-%d" % (os.getpid(), _KV_SEQ[0])
+        lmdb.wipe(path)
     o = {"class": "nostr_relay.storage.kv.LMDBStorage", "path": path,
          "validators": list(validators if validators is not None else ["nostr_relay.validators.is_signed"])}
     o.update(opts)
